@@ -263,6 +263,19 @@ func runC10(c *Ctx, idx int, o *Obs) {
 		o.Ev("rerooted_reference_object", 1)
 	}
 
+	// ---- one Supporter (progress / cancel handle) given to two analyses in a row: the second is the definition's too
+	if idx%4 == 2 {
+		sup := support.NewSupporter()
+		r1, r2 := mustParse(refText), mustParse(refText)
+		if err := support.FBP(r1, treesChan(boots), 1, sup); o.Check(err == nil, "fbp_error", "with a Supporter: "+fmt.Sprint(err), inp) {
+			judge("FBP (first analysis of a Supporter)", r1, wantF, nil)
+			if err := support.FBP(r2, treesChan(boots), 1, sup); o.Check(err == nil, "fbp_error", "second analysis of a Supporter: "+fmt.Sprint(err), inp) {
+				judge("FBP (second analysis of the same Supporter)", r2, wantF, nil)
+			}
+		}
+		o.Ev("supporter_reused", 1)
+	}
+
 	// ---- the same reference object through several computations in a row: each result is the definition's,
 	// whatever the previous computation left on the object (supports, ids, indexes)
 	if idx%3 == 0 {
